@@ -354,7 +354,10 @@ def checksum_feed(ctx):
                                     e = end
                                     while e[0] == 'cast':
                                         e = e[2]
-                                    if (e[0] == 'local' and e[1] in nl) or any(y[0] == 'call' and len(y) > 3 and y[3] is rt for y in expr_walk(e)):
+                                    # the slice end must be the count itself, not an expression over it
+                                    if (e[0] == 'local' and e[1] in nl) or (e[0] in ('field', 'downcast', 'trybranch') and
+                                                                              any(y[0] == 'call' and len(y) > 3 and y[3] is rt for y in expr_walk(e))
+                                                                              and not any(y[0] in ('bin',) or (y[0] == 'call' and y[3] is not rt) for y in expr_walk(e) if y[0] in ('bin', 'call'))):
                                         okd = True
                         if okd:
                             ups.append(ub)
@@ -516,9 +519,8 @@ def table_inverse(ctx):
             if common and len(table) >= 8:
                 idl = sorted(common)[0]
                 cand = {ft_by_discr.get(v, v): cs[idl] for v, cs in table.items()}
-                if len(set(cand.values())) == len(cand):
-                    w_ids = cand
-                    wfn = (f, sb)
+                w_ids = cand
+                wfn = (f, sb)
     r_ids = {}
     rfn = None
     for f in F.fns:
